@@ -22,7 +22,8 @@ CONSTANTS PrioSeq,      \* configured priorities, highest first
           OutCap, FbCap,\* capacities of output / feedback (constructor: max(H \div 10, n))
           FbLimit,      \* feedbackLimit (constructor: max(H \div 10, n))
           Saturated,    \* TRUE: infinite anonymous supply on every input (C05)
-          FaultBudget   \* number of divider calls TLC may corrupt (0 or 1)
+          FaultBudget,  \* number of divider calls TLC may corrupt (0 or 1)
+          NoClose       \* inputs the environment keeps open for ever (an open idle input must not block the others)
 
 Prios == {PrioSeq[i] : i \in 1..Len(PrioSeq)}
 N == Len(PrioSeq)
@@ -201,7 +202,7 @@ Produce(p) ==   \* a producer writes the next item (unbuffered: parks until the 
   /\ inq' = [inq EXCEPT ![p] = Append(@, written[p] + 1)]
   /\ UNCHANGED svars /\ UNCHANGED <<closed, outq, fbq, pendq, held, recvd>>
 CloseIn(p) ==
-  /\ ~Saturated /\ ~closed[p] /\ written[p] = Items[p]
+  /\ ~Saturated /\ ~closed[p] /\ written[p] = Items[p] /\ p \notin NoClose
   /\ InCap[p] = 0 => inq[p] = <<>>           \* never close under a parked writer
   /\ closed' = [closed EXCEPT ![p] = TRUE]
   /\ UNCHANGED svars /\ UNCHANGED <<inq, written, outq, fbq, pendq, held, recvd>>
